@@ -14,6 +14,20 @@ from .types import (
 from .utils import require_minimum_pandas_version
 
 
+def _same_names_reordered(names, struct):
+    """
+    A list of column names that holds exactly the field names of the records
+    (keyword-built Rows sort theirs) asks for these columns in that order: the
+    values stay under their own names. Any other list renames by position.
+    """
+    names = list(names)
+    return (
+        len(set(names)) == len(names)
+        and names != struct.names
+        and sorted(names) == sorted(struct.names)
+    )
+
+
 class SparkSession:
     class Builder:
         _lock = RLock()
@@ -142,9 +156,15 @@ class SparkSession:
             converter = _create_converter(struct)
             rdd = rdd.map(converter)
             if isinstance(schema, (list, tuple)):
-                for i, name in enumerate(schema):
-                    struct.fields[i].name = name
-                    struct.names[i] = name
+                if _same_names_reordered(schema, struct):
+                    struct = StructType([struct[name] for name in schema])
+                else:
+                    for i, name in enumerate(schema):
+                        struct.fields[i].name = name
+                        struct.names[i] = name
+                    # the given names replace the records' own field names,
+                    # position by position: the values stay where they are
+                    rdd = rdd.map(tuple)
             schema = struct
 
         elif not isinstance(schema, StructType):
@@ -168,9 +188,15 @@ class SparkSession:
             converter = _create_converter(struct)
             data = map(converter, data)
             if isinstance(schema, (list, tuple)):
-                for i, name in enumerate(schema):
-                    struct.fields[i].name = name
-                    struct.names[i] = name
+                if _same_names_reordered(schema, struct):
+                    struct = StructType([struct[name] for name in schema])
+                else:
+                    for i, name in enumerate(schema):
+                        struct.fields[i].name = name
+                        struct.names[i] = name
+                    # the given names replace the records' own field names,
+                    # position by position: the values stay where they are
+                    data = map(tuple, data)
             schema = struct
 
         elif not isinstance(schema, StructType):
